@@ -107,6 +107,17 @@ class C15(Prop):
                     cand = [l2, h2, l2 - 1, h2 + 1, l2 + 1, h2 - 1, lo, hi, lo - 1, hi + 1, rng.randint(lo, hi), rng.randint(0, U64)]
                     case["then_lift"] = [min(max(x, 0), U64) for x in rng.sample(cand, rng.randint(1, 5))]
                 yield case
+                if same and cn == r[0] and cs == r[1] and rng.random() < 0.4:
+                    # C15_clamp_nested: a second operand inside the first one that still meets the pair; clamping to the
+                    # outer one first and then to the inner one must equal clamping to the inner one directly
+                    l2, h2 = max(lo, a), min(hi, b)
+                    a2 = rng.choice([a, l2, h2, rng.randint(a, h2)])
+                    b2 = rng.choice([b, l2, h2, max(a2, l2), rng.randint(max(a2, l2), b)])
+                    b2 = max(b2, a2, l2)
+                    if (a2, b2) == (a, b) and b - a > 1 and rng.random() < 0.8:
+                        a2 = rng.randint(a, h2)
+                        b2 = rng.randint(max(a2, l2), b)
+                    yield {"kind": "pair_clamp2", "r": list(r), "q": list(q), "iv": [cn, cs, a, b], "iv2": [cn, cs, a2, b2]}
 
     def evaluate(self, ctx, case):
         ev = Eval()
@@ -134,6 +145,22 @@ class C15(Prop):
                     want = "none"
                 if i != want:
                     ev.judge = "lift: expected %s, got %s" % (want, i)
+        elif kind == "pair_clamp2":
+            iv, iv2 = case["iv"], case["iv2"]
+            i1, _ = both(ctx, ev, "pair_clamp %s %s %s" % (rt, qt, iv_tok(*iv)))
+            i2, _ = both(ctx, ev, "pair_clamp %s %s %s" % (rt, qt, iv_tok(*iv2)))
+            if i1.startswith("ok ") and ">" in i1:
+                r1, q1 = i1[3:].split(">", 1)
+                i3, m3 = both(ctx, ev, "pair_clamp %s %s %s" % (r1, q1, iv_tok(*iv2)))
+                if i3 != i2:
+                    ev.judge = "clamp to %s then to %s inside it: %s, but clamping to the inner operand directly: %s" % (iv, iv2, i3, i2)
+                ev.nontrivial = ("clamp2", tuple(r), tuple(q), tuple(iv), tuple(iv2))
+                ev.tags.append("clamp2:" + ("same" if iv == iv2 else "inner"))
+                for a_, b_ in zip(ev.impl, ev.model):
+                    if a_ != b_:
+                        ev.corr = "impl %r vs model %r" % (a_, b_)
+            elif eq:
+                ev.judge = "clamp: an operand that meets the reference interval was refused: " + i1
         else:
             iv = case["iv"]
             then = case.get("then_lift")
@@ -187,7 +214,9 @@ class C15(Prop):
                 for d in (v[2], v[2] // 2, 1):
                     if d and v[2] - d >= 0:
                         c = copy.deepcopy(case)
-                        for k2 in ("r", "iv") if key in ("r", "iv") else ("q",):
+                        if key in ("r", "iv") and "iv2" in c and c["iv2"][2] - d < 0:
+                            continue
+                        for k2 in ("r", "iv", "iv2") if key in ("r", "iv") else ("q",):
                             if k2 in c and c[k2][2] - d >= 0:
                                 c[k2][2] -= d
                                 c[k2][3] -= d
@@ -196,7 +225,7 @@ class C15(Prop):
                         yield c
 
     def neighbours(self, case, rng):
-        for key in ("r", "q", "iv", "c"):
+        for key in ("r", "q", "iv", "iv2", "c"):
             if key in case:
                 for idx in ((2, 3) if key != "c" else (2,)):
                     for d in (-1, 1):
@@ -206,6 +235,11 @@ class C15(Prop):
                             continue
                         if key != "c" and c[key][2] > c[key][3]:
                             continue
+                        if c["kind"] == "pair_clamp2":
+                            i1, i2, rr = c["iv"], c["iv2"], c["r"]
+                            l2, h2 = max(rr[2], i1[2]), min(rr[3], i1[3])
+                            if not (l2 <= h2 and i1[2] <= i2[2] <= i2[3] <= i1[3] and i2[2] <= h2 and i2[3] >= l2):
+                                continue
                         if c["kind"] == "pair_clamp" and c["iv"][0] == c["r"][0] and c["iv"][1] == c["r"][1] \
                                 and max(c["r"][2], c["iv"][2]) > min(c["r"][3], c["iv"][3]):
                             continue
